@@ -286,11 +286,23 @@ def flux_oracle(n, T, pi, q, F, NF, RP, sources, sinks):
     out_src = sum([rs(i) for i in sources[1:]], rs(sources[0]))
     in_snk = sum([cs(i) for i in sinks[1:]], cs(sinks[0]))
     obs.append(('source-outflow-equals-sink-inflow', out_src == in_snk))
-    if RP is not None and mid:      # with no intermediate state there is no reactive population to normalise
-        obs.append(('reactive-populations-nonnegative-sum-to-one', conj([x >= 0 for x in RP]) &
-                    (sum(RP[1:], RP[0]) == 1) if isinstance(RP[0], (SVal, Tol)) else
-                    (all(x >= 0 for x in RP) and sum(RP[1:], RP[0]) == 1)))
-        obs.append(('reactive-populations-vanish-on-sources-and-sinks', conj([RP[i] == 0 for i in list(sources) + list(sinks)])))
+    if RP is not None and mid:
+        # the reactive density pi_i q+_i q-_i can vanish on EVERY state although intermediates exist (each intermediate
+        # touches only the source side or only the sink side): then no probability vector can vanish on sources and sinks,
+        # the normalisation is 0/0 and the clause is unsatisfiable for any implementation - it applies when the total
+        # density is positive
+        dens = [pi[i] * q[i] * (1 - q[i]) for i in mid]
+        total = sum(dens[1:], dens[0])
+        symbolic = isinstance(RP[0], SVal) or isinstance(total, SVal)
+        if symbolic:
+            guard = total > 0
+            c1 = conj([x >= 0 for x in RP]) & (sum(RP[1:], RP[0]) == 1)
+            c2 = conj([RP[i] == 0 for i in list(sources) + list(sinks)])
+            obs.append(('reactive-populations-nonnegative-sum-to-one', sor(snot(guard), c1)))
+            obs.append(('reactive-populations-vanish-on-sources-and-sinks', sor(snot(guard), c2)))
+        elif (total.v if isinstance(total, Tol) else total) > 1e-9:
+            obs.append(('reactive-populations-nonnegative-sum-to-one', all(x >= 0 for x in RP) and sum(RP[1:], RP[0]) == 1))
+            obs.append(('reactive-populations-vanish-on-sources-and-sinks', conj([RP[i] == 0 for i in list(sources) + list(sinks)])))
     return obs
 
 
